@@ -19,7 +19,7 @@ from decimal import Decimal as D
 import runner
 import rbif
 from rbif import ABSENT, UNDECIDED, Amb, Ctx, Opaque, kind
-from common import crash_signature, panic_signature, rng_for
+from common import crash_signature, panic_signature, rng_for, warm
 
 LEVEL = "exploration"
 
@@ -603,6 +603,21 @@ def build_calls(tuples, tier, base):
         spec = rbif.BY_NAME[fname]
         names = [interner.name(a) for a in args]
         calls.append({"t": local, "form": "positional", "text": "%s(%s)" % (fname, ", ".join(names)), "uses": names})
+        if ti % 3 == 1 and names:
+            # the same arguments written as small value-preserving expressions over the names instead of the bare names
+            # (a double negation for numbers, a singleton list indexed, a conditional, a context entry)
+            wrapped = []
+            for k, (a, nm) in enumerate(zip(args, names)):
+                w = (ti + k) % 4
+                if w == 0 and isinstance(a, D) and not isinstance(a, bool):
+                    wrapped.append("-(-%s)" % nm)
+                elif w == 1:
+                    wrapped.append("[%s][1]" % nm)
+                elif w == 2:
+                    wrapped.append("(if true then %s else null)" % nm)
+                else:
+                    wrapped.append("{x: %s}.x" % nm)
+            calls.append({"t": local, "form": "wrapped", "text": "%s(%s)" % (fname, ", ".join(wrapped)), "uses": names})
         lits = None
         if (ti % 4 == 0) or origin.startswith("sweep"):
             lits = [literal(a) for a in args]
@@ -696,7 +711,7 @@ def run(rep, tier, seed):
             chunk = calls[lo : lo + BATCH]
             used = sorted({u for c in chunk for u in c["uses"]}, key=lambda s: int(s[1:]))
             scope = [[[u, interner.values[int(u[1:])]] for u in used]]
-            cases.append({"op": "evalmany", "scope": scope, "texts": [c["text"] for c in chunk]})
+            cases.append(warm({"op": "evalmany", "scope": scope, "texts": [c["text"] for c in chunk]}))
             spans.append((lo, len(chunk)))
         results, _ = runner.run_cases("dbg", cases, rep.workdir, label="bifs", case_timeout=60.0)
         # a batch that made no progress for 60 s on a loaded machine is re-run alone with a 300 s budget;
@@ -783,6 +798,8 @@ def judge(rep, acc, tuples, calls, cases, spans, results, interner, variant):
         if len(res["rs"]) != cnt:
             raise runner.Inconclusive("batch returned %d results for %d texts" % (len(res["rs"]), cnt))
         for k, r in enumerate(res["rs"]):
+            if "rep_diff" in r:
+                rep.violation("repeated-evaluation-differs:%s" % case["texts"][k].split("(")[0].replace(" ", "_"), "the same prepared invocation `%s` evaluated twice over the same scope gave %s" % (case["texts"][k][:160], json.dumps(r["rep_diff"])[:300]), {"variant": variant, "case": {"op": "evalmany", "scope": case["scope"], "warm_scope": case.get("warm_scope"), "reps": 2, "texts": [case["texts"][k]]}})
             if "panic" in r:
                 observed[lo + k] = ("panic", r["panic"])
             elif "v" in r:
